@@ -233,7 +233,9 @@ class TraitList(list):
         added : list
             The items being added to the list.
         """
-        for notifier in self.notifiers:
+        # Iterate over a copy: a notifier may remove itself (or others)
+        # from the list while being called.
+        for notifier in list(self.notifiers):
             notifier(self, index, removed, added)
 
     # -- list interface -------------------------------------------------------
